@@ -99,6 +99,27 @@ theorem dataset_list_filter (names : List String) (acl : List Ac) (hn : names.No
   have := hmem.2
   simpa [isGranted, loop_spec, GrantSpec] using this
 
+/-- what is on disk is what is in memory. -/
+def Mirror (s : Sec) : Prop := s.diskClients = s.mem.clients ∧ s.diskAcls = s.mem.acls
+
+theorem mirror_step (s : Sec) (h : Mirror s) (op : SecOp) : Mirror (s.step op) := by
+  cases op <;> simp_all [Sec.step, Mirror]
+
+/-- T-C16-4 (registrations and ACLs survive a restart unchanged): after any history of
+register / unregister / set / delete operations and restarts, a restart changes nothing. -/
+theorem persist (ops : List SecOp) :
+    let s := ops.foldl Sec.step {}
+    (s.step .restart).mem = s.mem := by
+  have h : Mirror (ops.foldl Sec.step {}) := by
+    have h0 : Mirror {} := ⟨rfl, rfl⟩
+    generalize ({} : Sec) = s at h0
+    induction ops generalizing s with
+    | nil => exact h0
+    | cons op ops ih => exact ih _ (mirror_step s h0 op)
+  simp only [Sec.step]
+  obtain ⟨h1, h2⟩ := h
+  rw [h1, h2]
+
 /-! ## tie to the Go source (regenerated facts) -/
 set_option maxRecDepth 20000 in
 open Hub.Facts.Acl in
@@ -118,7 +139,8 @@ theorem facts_shape :
     ∧ validateErrAssigns = ["errors.New(\"invalid audience\")", "errors.New(\"invalid issuer\")", "errors.New(\"non matching signing method\")"]
     ∧ validateChecks = ["!checkAud", "!checkIss", "!checkSigningMethod"]
     ∧ aclsWriters = ["DeleteClientAccessControls:GetAllAccessControls", "SetClientAccessControls:GetAllAccessControls"]
-    ∧ clientsWriters = ["RegisterClient:GetClients"] := by decide
+    ∧ clientsWriters = ["RegisterClient:GetClients"]
+    ∧ unregisterCalls = ["serviceCore.clients.Delete(clientInfo.ClientID)", "serviceCore.DeleteClientAccessControls(clientInfo.ClientID)"] := by decide
 
 -- non-vacuity
 example : doAclCheck "GET" "/datasets/a/changes" false [⟨"/datasets/a*", "read", false⟩] = true := by decide
